@@ -23,140 +23,97 @@ theorem expandProtocolTC_simLike (pts : List Rat) (T : Rat) (steps : List PStep)
   | nil => rfl
   | cons s rest ih => obtain ⟨d, p⟩ := s; simp [expandProtocolTC, simLike, ih]
 
-theorem runStop_refines {σ} (S : Sys σ) : ∀ (ops : List Op) (h : HSt) (s : Sim σ) (a : Spec σ),
-    Rel h s a → h.simOK = true → ops.all simLike = true →
+theorem runStop_refines {σ} (S : Sys σ) : ∀ (ops : List Op) (s : Sim σ) (a : Spec σ),
+    Rel s a →
     (runStop S s ops).2 = (Spec.runStop S a ops).2 ∧
-      ∃ h', h'.simOK = true ∧ Rel h' (runStop S s ops).1 (Spec.runStop S a ops).1
-  | [], h, _, _, r, hs, _ => ⟨rfl, h, hs, r⟩
-  | op :: rest, h, s, a, r, hs, hall => by
-    simp only [List.all_cons, Bool.and_eq_true] at hall
-    obtain ⟨h', hn, hs'⟩ : ∃ h', h.next op = some h' ∧ h'.simOK = true := by
-      cases op with
-      | updPars kvs => exact ⟨h, rfl, hs⟩
-      | simulate t n => exact ⟨⟨false, true⟩, by simp [HSt.next, hs], rfl⟩
-      | timeCourse pts => exact ⟨⟨false, true⟩, by simp [HSt.next, hs], rfl⟩
-      | steady res => simp [simLike] at hall
-      | updVars ov => simp [simLike] at hall
-      | clear => simp [simLike] at hall
-    obtain ⟨he, hr⟩ := step_refines S r op hn
+      Rel (runStop S s ops).1 (Spec.runStop S a ops).1
+  | [], _, _, r => ⟨rfl, r⟩
+  | op :: rest, s, a, r => by
+    obtain ⟨he, hr⟩ := step_refines S r op
     simp only [runStop, Spec.runStop]
     rcases hi : step S s op with ⟨s1, _ | e⟩
     · rcases hsp : Spec.step S a op with ⟨a1, _ | e'⟩
       · rw [hi, hsp] at hr
         simp only
-        exact runStop_refines S rest h' s1 a1 hr hs' hall.2
+        exact runStop_refines S rest s1 a1 hr
       · rw [hi, hsp] at he; cases he
     · rcases hsp : Spec.step S a op with ⟨a1, _ | e'⟩
       · rw [hi, hsp] at he; cases he
       · rw [hi, hsp] at he hr
         simp only at he
         cases he
-        exact ⟨rfl, h', hs', hr⟩
+        exact ⟨rfl, hr⟩
 
-theorem errors_of_live {σ} {h : HSt} {s : Sim σ} {a : Spec σ} (r : Rel h s a) (hf : a.failed = false) :
+theorem errors_of_live {σ} {s : Sim σ} {a : Spec σ} (r : Rel s a) (hf : a.failed = false) :
     s.errors = 0 := by
   have := r.failed; rw [hf] at this
   simp only [gt_iff_lt, decide_eq_false_iff_not, Nat.not_lt, Nat.le_zero_eq] at this
   exact this
 
-theorem stepP_refines {σ} (S : Sys σ) {h h' : HSt} {s : Sim σ} {a : Spec σ} (r : Rel h s a) (op : OpP)
-    (hn : nextP h op = some h') :
-    (stepP S s op).2 = (Spec.stepP S a op).2 ∧ Rel h' (stepP S s op).1 (Spec.stepP S a op).1 := by
+theorem stepP_refines {σ} (S : Sys σ) {s : Sim σ} {a : Spec σ} (r : Rel s a) (op : OpP)
+    (hwf : wfOp op = true) :
+    (stepP S s op).2 = (Spec.stepP S a op).2 ∧ Rel (stepP S s op).1 (Spec.stepP S a op).1 := by
   cases op with
-  | basic op => exact step_refines S r op hn
+  | basic op => exact step_refines S r op
   | protocol steps n =>
-    simp only [nextP] at hn
-    split at hn
-    · rename_i hc
-      cases hn
-      simp only [Bool.and_eq_true] at hc
-      have hw : Rel ⟨false, true⟩ s a := r.weaken (fun _ => hc.1) (fun x => by simp at x)
-      simp only [stepP, Spec.stepP, Spec.protocol]
-      by_cases hf : a.failed = true
-      · simp [simulateProtocol, hf, r.errors_pos hf, hw]
-      · have hf' : a.failed = false := by simpa using hf
-        rw [simulateProtocol_eq S s steps n a.now hc.2 (errors_of_live r hf') r.reached]
-        simp only [hf', Bool.false_eq_true, if_false]
-        obtain ⟨he, h2, hs2, r2⟩ := runStop_refines S _ h s a r hc.1 (expandProtocol_simLike a.now n steps)
-        exact ⟨he, r2.weaken (fun _ => hs2) (fun x => by simp at x)⟩
-    · cases hn
+    simp only [stepP, Spec.stepP, Spec.protocol]
+    by_cases hf : a.failed = true
+    · simp [simulateProtocol, hf, r.errors_pos hf, r]
+    · have hf' : a.failed = false := by simpa using hf
+      rw [simulateProtocol_eq S s steps n a.now hwf (errors_of_live r hf') r.reached]
+      simp only [hf', Bool.false_eq_true, if_false]
+      exact runStop_refines S _ s a r
   | protocolTC steps pts rel =>
-    simp only [nextP] at hn
-    split at hn
-    · rename_i hc
-      cases hn
-      simp only [Bool.and_eq_true] at hc
-      have hw : Rel ⟨false, true⟩ s a := r.weaken (fun _ => hc.1) (fun x => by simp at x)
-      simp only [stepP, Spec.stepP, Spec.protocolTC]
-      by_cases hf : a.failed = true
-      · simp [simulateProtocolTC, hf, r.errors_pos hf, hw]
-      · have hf' : a.failed = false := by simpa using hf
-        rw [simulateProtocolTC_eq S s steps pts rel a.now hc.2 (errors_of_live r hf') r.reached]
-        simp only [hf', Bool.false_eq_true, if_false]
-        cases (if rel then pts.map (· + a.now) else pts).getLast? with
-        | none => exact ⟨rfl, hw⟩
-        | some last =>
-          simp only
-          split
-          · exact ⟨rfl, hw⟩
-          · split
-            · exact ⟨rfl, hw⟩
-            · obtain ⟨he, h2, hs2, r2⟩ :=
-                runStop_refines S _ h s a r hc.1 (expandProtocolTC_simLike _ a.now steps)
-              exact ⟨he, r2.weaken (fun _ => hs2) (fun x => by simp at x)⟩
-    · cases hn
+    simp only [stepP, Spec.stepP, Spec.protocolTC]
+    by_cases hf : a.failed = true
+    · simp [simulateProtocolTC, hf, r.errors_pos hf, r]
+    · have hf' : a.failed = false := by simpa using hf
+      rw [simulateProtocolTC_eq S s steps pts rel a.now hwf (errors_of_live r hf') r.reached]
+      simp only [hf', Bool.false_eq_true, if_false]
+      cases (if rel then pts.map (· + a.now) else pts).getLast? with
+      | none => exact ⟨rfl, r⟩
+      | some last =>
+        simp only
+        split
+        · exact ⟨rfl, r⟩
+        · split
+          · exact ⟨rfl, r⟩
+          · exact runStop_refines S _ s a r
 
-theorem runP_refines {σ} (S : Sys σ) : ∀ (ops : List OpP) (h : HSt) (s : Sim σ) (a : Spec σ),
-    Rel h s a → okHistP h ops = true →
-    (runP S s ops).2 = (Spec.runP S a ops).2 ∧ ∃ h', Rel h' (runP S s ops).1 (Spec.runP S a ops).1
-  | [], h, _, _, r, _ => ⟨rfl, h, r⟩
-  | op :: rest, h, s, a, r, hok => by
-    simp only [okHistP] at hok
-    cases hn : nextP h op with
-    | none => simp [hn] at hok
-    | some h' =>
-      simp only [hn] at hok
-      obtain ⟨he, hr⟩ := stepP_refines S r op hn
-      obtain ⟨hes, hrs⟩ := runP_refines S rest h' _ _ hr hok
-      simp only [runP, Spec.runP]
-      exact ⟨by rw [he, hes], hrs⟩
+theorem runP_refines {σ} (S : Sys σ) : ∀ (ops : List OpP) (s : Sim σ) (a : Spec σ),
+    Rel s a → ops.all wfOp = true →
+    (runP S s ops).2 = (Spec.runP S a ops).2 ∧ Rel (runP S s ops).1 (Spec.runP S a ops).1
+  | [], _, _, r, _ => ⟨rfl, r⟩
+  | op :: rest, s, a, r, hok => by
+    simp only [List.all_cons, Bool.and_eq_true] at hok
+    obtain ⟨he, hr⟩ := stepP_refines S r op hok.1
+    obtain ⟨hes, hrs⟩ := runP_refines S rest _ _ hr hok.2
+    simp only [runP, Spec.runP]
+    exact ⟨by rw [he, hes], hrs⟩
 
 /-! ### the axis of histories with protocols -/
 
-def steadyPosP : OpP → Bool
-  | .basic op => steadyPos op
-  | _ => true
-
-theorem simLike_steadyPos (ops : List Op) (h : ops.all simLike = true) : ops.all steadyPos = true := by
-  induction ops with
-  | nil => rfl
-  | cons op rest ih =>
-    simp only [List.all_cons, Bool.and_eq_true] at h ⊢
-    refine ⟨?_, ih h.2⟩
-    cases op <;> simp [simLike] at h <;> rfl
-
 theorem Spec.runStop_axis {σ} (S : Sys σ) : ∀ (ops : List Op) (a : Spec σ), Spec.Axis a →
-    ops.all steadyPos = true → Spec.Axis (Spec.runStop S a ops).1
-  | [], _, ax, _ => ax
-  | op :: rest, a, ax, h => by
-    simp only [List.all_cons, Bool.and_eq_true] at h
-    have h1 := Spec.step_axis S a op ax h.1
+    Spec.Axis (Spec.runStop S a ops).1
+  | [], _, ax => ax
+  | op :: rest, a, ax => by
+    have h1 := Spec.step_axis S a op ax
     simp only [Spec.runStop]
     rcases hs : Spec.step S a op with ⟨a1, _ | e⟩
     · rw [hs] at h1
-      exact Spec.runStop_axis S rest a1 h1 h.2
+      exact Spec.runStop_axis S rest a1 h1
     · rw [hs] at h1
       exact h1
 
-theorem Spec.stepP_axis {σ} (S : Sys σ) (a : Spec σ) (op : OpP) (ax : Spec.Axis a)
-    (hop : steadyPosP op = true) : Spec.Axis (Spec.stepP S a op).1 := by
+theorem Spec.stepP_axis {σ} (S : Sys σ) (a : Spec σ) (op : OpP) (ax : Spec.Axis a) :
+    Spec.Axis (Spec.stepP S a op).1 := by
   cases op with
-  | basic op => exact Spec.step_axis S a op ax hop
+  | basic op => exact Spec.step_axis S a op ax
   | protocol steps n =>
     simp only [Spec.stepP, Spec.protocol]
     split
     · exact ax
-    · exact Spec.runStop_axis S _ a ax (simLike_steadyPos _ (expandProtocol_simLike a.now n steps))
+    · exact Spec.runStop_axis S _ a ax
   | protocolTC steps pts rel =>
     simp only [Spec.stepP, Spec.protocolTC]
     split
@@ -169,30 +126,11 @@ theorem Spec.stepP_axis {σ} (S : Sys σ) (a : Spec σ) (op : OpP) (ax : Spec.Ax
         · exact ax
         · split
           · exact ax
-          · exact Spec.runStop_axis S _ a ax (simLike_steadyPos _ (expandProtocolTC_simLike _ a.now steps))
+          · exact Spec.runStop_axis S _ a ax
 
 theorem Spec.runP_axis {σ} (S : Sys σ) : ∀ (ops : List OpP) (a : Spec σ), Spec.Axis a →
-    ops.all steadyPosP = true → Spec.Axis (Spec.runP S a ops).1
-  | [], _, ax, _ => ax
-  | op :: rest, a, ax, h => by
-    simp only [List.all_cons, Bool.and_eq_true] at h
-    exact Spec.runP_axis S rest _ (Spec.stepP_axis S a op ax h.1) h.2
-
-theorem okHistP_steadyPos : ∀ (ops : List OpP) (h : HSt), okHistP h ops = true → ops.all steadyPosP = true
-  | [], _, _ => rfl
-  | op :: rest, h, hok => by
-    simp only [okHistP] at hok
-    cases hn : nextP h op with
-    | none => simp [hn] at hok
-    | some h' =>
-      simp only [hn] at hok
-      simp only [List.all_cons, Bool.and_eq_true]
-      refine ⟨?_, okHistP_steadyPos rest h' hok⟩
-      cases op with
-      | basic o =>
-        have := okHist_steadyPos [o] h (by simp only [okHist]; simp only [nextP] at hn; rw [hn])
-        simpa [steadyPosP] using this
-      | protocol _ _ => rfl
-      | protocolTC _ _ _ => rfl
+    Spec.Axis (Spec.runP S a ops).1
+  | [], _, ax => ax
+  | op :: rest, a, ax => Spec.runP_axis S rest _ (Spec.stepP_axis S a op ax)
 
 end Mxl.C14
